@@ -33,6 +33,9 @@ pub fn c02_base_records(c: &Corpus) -> Vec<[u8; 32]> {
     for b in &c.boundary_valid {
         v.push(*b);
     }
+    for b in &c.band {
+        v.push(*b);
+    }
     for b in c.valid.iter().skip(1).take(4) {
         let s = Fld::int_le(b);
         for x in [&s + q, f.neg(&s), &s + 1u32, &s + q + q] {
@@ -352,6 +355,19 @@ pub fn c03_programs(c: &Corpus) -> Vec<Vec<PoolOp>> {
         let mut b = [0u8; 32];
         b[0] = x as u8;
         v.push(vec![po(EOp::Elligator(hex(&b)))]);
+    }
+    for i in [3usize, 30] {
+        let d = EOp::Decode(hex(&c.valid[i % c.valid.len()]));
+        v.push(vec![po(d.clone()), po(EOp::AddOtherRep(0))]);
+        v.push(vec![po(d.clone()), po(EOp::Double(0)), po(EOp::AddDecoded(1))]);
+        v.push(vec![po(d.clone()), po(EOp::ZeroizedCopyEncoded(0)), po(EOp::Double(0))]);
+        v.push(vec![po(d), po(EOp::MulU64(0, 3)), po(EOp::IntoGroup(1))]);
+    }
+    for x in [1u64, 5] {
+        let mut b = [0u8; 32];
+        b[0] = x as u8;
+        v.push(vec![po(EOp::Hash2Related(hex(&b), false))]);
+        v.push(vec![po(EOp::Hash2Related(hex(&b), true))]);
     }
     v
 }
@@ -683,7 +699,15 @@ pub fn c11_cases(quick: bool) -> Vec<IoRun> {
             let pb = f.p.to_bytes_le();
             let ones = vec![0xffu8; l];
             let pat: Vec<u8> = (0..l).map(|i| pb[i % pb.len()]).collect();
-            for b in [ones, pat] {
+            let mut zc = pat.clone();
+            for x in zc.iter_mut().take(f.nbytes.min(l)) {
+                *x = 0;
+            }
+            let mut single = vec![0u8; l];
+            if l > f.nbytes {
+                single[f.nbytes] = 1;
+            }
+            for b in [ones, pat, zc, single] {
                 out.push(IoRun {
                     fpool: vec![
                         FieldOp { which: w, src: FSrc::LeMod(hex(&b)) },
